@@ -36,14 +36,14 @@ count_min_sketch<W,A>::count_min_sketch(uint8_t num_hashes, uint32_t num_buckets
 _allocator(allocator),
 _num_hashes(num_hashes),
 _num_buckets(num_buckets),
-_sketch_array((num_hashes*num_buckets < 1<<30) ? num_hashes*num_buckets : 0, 0, _allocator),
+_sketch_array((static_cast<uint64_t>(num_hashes) * num_buckets < 1 << 30) ? num_hashes * num_buckets : 0, 0, _allocator),
 _seed(seed),
 _total_weight(0) {
   if (num_buckets < 3) throw std::invalid_argument("Using fewer than 3 buckets incurs relative error greater than 1.");
 
   // This check is to ensure later compatibility with a Java implementation whose maximum size can only
   // be 2^31-1.  We check only against 2^30 for simplicity.
-  if (num_buckets * num_hashes >= 1 << 30) {
+  if (static_cast<uint64_t>(num_buckets) * num_hashes >= 1 << 30) { // 64-bit product: the 32-bit one wraps for num_buckets >= 2^31
     throw std::invalid_argument("These parameters generate a sketch that exceeds 2^30 elements."
                                 "Try reducing either the number of buckets or the number of hash functions.");
   }
